@@ -33,8 +33,36 @@ static void conc(int T, int n, bool nested)
   mc_eventf("max" + std::to_string(maxseen.load()));
 }
 
+// re-initialisation histories under the controlled scheduler: the old pool is shut down while
+// its workers are anywhere in their loop; the new count is reported and respected
+static void reinit(const char *sizes)
+{
+  MC_CHECK(numTaskingThreads() == 0, "numTaskingThreads() != 0 before initialisation", "before init");
+  std::string obs;
+  for (int k = 0; sizes[k]; k++) {
+    const int T = sizes[k] - '0';
+    initTaskingSystem(T);
+    MC_CHECK(numTaskingThreads() == T, "initTaskingSystem(n>0) does not report n (after a previous initialisation)", obs.c_str());
+    std::atomic<int> inside(0), calls(0);
+    parallel_for(T + 1, [&](int) {
+      int c = inside.fetch_add(1) + 1;
+      MC_CHECK(c <= T, "parallel_for body ran on more threads at once than numTaskingThreads()", ("inside=" + std::to_string(c)).c_str());
+      calls.fetch_add(1);
+      mc_yield();
+      inside.fetch_sub(1);
+    });
+    MC_CHECK(calls.load() == T + 1, "parallel_for after re-initialisation did not run every index once", obs.c_str());
+    obs += std::to_string(T);
+  }
+  mc_eventf("reinit" + obs);
+}
+
 static void entry()
 {
+  if (strncmp(mc_scenario_name(), "reinit_", 7) == 0) {
+    reinit(mc_scenario_name() + 7);
+    return;
+  }
   std::string s = mc_scenario_name();  // conc_T<t>_n<n> / nconc_T..
   int T = atoi(s.c_str() + s.find("_T") + 2);
   int n = atoi(s.c_str() + s.find("_n") + 2);
@@ -51,6 +79,8 @@ struct Reg
     add("conc_T3_n6", 2, 2);
     add("conc_T3_n12", 1, 2);
     add("nconc_T2_n3", 2, 3);
+    for (const char *seq : {"21", "12", "22", "23", "32", "212", "121", "232"})
+      add(std::string("reinit_") + seq, 1, strlen(seq) == 3 ? 2 : 3);
   }
 };
 static Reg reg;
